@@ -47,6 +47,11 @@ MODELS = {
     "mc_resp": ("MC_Resp.tla", "MC_Resp.cfg", 900, ["no_length_100", "body_after_204", "crlf_body", "length_removed", "allow_two", "encoding_with_length"]),
     # liveness with a rogue client under strong fairness: the witness is always served (slow: ~3.5 min)
     "srv_livew": ("MC_Server.tla", "MC_Server_livew.cfg", 3600, []),
+    # guided sender, 5 lines out of 10 templates: a complete Expect flow (request line, Content-Length,
+    # Expect, blank line, body) under every segmentation
+    "conn_guided5": ("MC_Conn.tla", "MC_Conn_guided5.cfg", 7200, ["body_delivered", "continue", "size_limit", "pipelined", "partial_body"]),
+    # free sender (any template after any), 4 lines out of 12 templates
+    "conn_free4": ("MC_Conn.tla", "MC_Conn_free4.cfg", 7200, ["bad_method", "bad_format", "cr_lf_split", "body_delivered"]),
     # descriptors arriving with reads (C12)
     "conn_files": ("MC_Conn.tla", "MC_Conn_files.cfg", 1800, ["files_delivered", "body_delivered", "pipelined"]),
 }
@@ -552,7 +557,7 @@ CONN_ASSUME = [
 ]
 
 def conn_models(tier, extra=()):
-    return (["conn_quick"] if tier == "quick" else ["conn_guided4", "conn_free3"]) + list(extra)
+    return (["conn_quick"] if tier == "quick" else ["conn_guided4", "conn_free3", "conn_guided5", "conn_free4"]) + list(extra)
 
 TABLE = {
     "C01": lambda tier, seed: conn_property("C01", tier, seed, conn_models(tier), [("small", "C01"), ("full", "C01")], CONN_ASSUME, "DESIGN.md 6 C01", gen_replay=True),
